@@ -181,7 +181,7 @@ def isObviousAncestor (b : Branch) (start stop : Option Nat) : Bool :=
     | .ok sd, .ok ed =>
       match sd, ed with
       | [x], [y] => x ≤ y
-      | [x0, _, x2], [y0, _, y2] => x0 == y0 && x2 ≤ y2      -- compares `[0:1]` only
+      | [x0, x1, x2], [y0, y1, y2] => x0 == y0 && x1 == y1 && x2 ≤ y2   -- same development line
       | _, _ => false
     | _, _ => false
   | _, _ => true
@@ -195,6 +195,8 @@ def calcView (b : Branch) (start stop : Option Nat) (forward genMerge delayed ex
   else match b.tip with
   | none => .ok ([], false)
   | some t =>
+    -- a range without an upper limit ends at the tip
+    let stop : Option Nat := if start.isSome && stop.isNone then some t else stop
     let single : Option Nat := match stop with
       | some e => if start == stop && (!genMerge || !hasMerges b e) then some e else none
       | none => none
@@ -256,8 +258,9 @@ def logRequest (b : Branch) (start stop : Option Nat) (forward : Bool) (levels l
     match calcView b start stop forward genMerge delayed exclCommon with
     | .error e => .error e
     | .ok (l, false) => .ok (levelLimit levels limit l)
-    -- a lazy view that fails at its end: with a limit the outcome depends on the batch sizes
-    | .ok (_, true) => if limit == 0 then .error .startNotLinear else .error .unsupported
+    -- a lazy view that fails at its end: the internal `_StartNotLinearAncestor` escapes (with a limit
+    -- the outcome even depends on the batch sizes) — a defect, not compared (the oracle reports it)
+    | .ok (_, true) => .error .unsupported
 
 /-! ## per-file filtering -/
 
